@@ -61,6 +61,11 @@ class Ctx:
         # a small pool: the same label is often reused by neighbouring sentences (cross-sentence leaks show only then)
         self.pool = list(LABELS[:6]) if rng.random() < 0.7 else list(LABELS)
         rng.shuffle(self.pool)
+        if rng.random() < 0.25:
+            # labels one of which is a prefix of another (C1 / C, X12 / X1): resolution of a label must be exact
+            self.pool = rng.choice([['C', 'C1', 'X', 'X1'], ['X1', 'X12', 'C', 'C1'], ['N', 'N1', 'N12']])
+            rng.shuffle(self.pool)
+            self.pref = {}
 
     def label(self, concept=None):
         # authors tend to write the same label for the same concept in every sentence ('node X', 'color C')
@@ -109,7 +114,9 @@ def verbuse(v, neg, subj_ent, obj_ent):
 
 class Sentence:
     def __init__(self, text, ast, kind, defines=None, uses=()):
-        self.text, self.ast, self.kind, self.defines, self.uses = text, ast, kind, defines, list(uses)
+        # one surface sentence may stand for several resolved sentences (an enumerative definition prints one rule per combination)
+        self.asts = ast if isinstance(ast, list) else [ast]
+        self.text, self.ast, self.kind, self.defines, self.uses = text, self.asts[0], kind, defines, list(uses)
 
 
 class Spec:
@@ -125,7 +132,10 @@ class Spec:
         return '\n'.join(self.decls + [s.text for s in self.sentences]) + '\n'
 
     def ast(self):
-        return [s.ast for s in self.sentences]
+        return [a for s in self.sentences for a in s.asts]
+
+    def owners(self):
+        return [s for s in self.sentences for _ in s.asts]
 
 
 # ---------------------------------------------------------------------------
@@ -175,7 +185,10 @@ def gen_spec(rng, n_verbs=None, n_constraints=None, small=True):
         else:
             v = Verb(unary.pop(), None, subj, None)
         earlier = list(sp.verbs)
-        if not earlier or rng.random() < 0.6:
+        r = rng.random()
+        if r < 0.12 and subj.tuples and (v.obj is None or v.obj.tuples):
+            s = enum_sentence(rng, sp, v)
+        elif not earlier or r < 0.65:
             s = choice_sentence(rng, sp, v, earlier)
         else:
             s = derived_sentence(rng, sp, v, earlier)
@@ -345,6 +358,35 @@ def derived_sentence(rng, sp, v, earlier):
         casts.append({'k': 'cmp', 'op': op, 'l': ctx.var(x), 'r': val(n)})
     t += '.'
     return Sentence(t, {'k': 'derived', 'v': verbuse(v, False, se, obj_ent), 'conds': casts}, 'derived', defines=v.pred)
+
+
+def enum_sentence(rng, sp, v):
+    """<S> X is <verb> <O> Y, where X is one of a, b and Y is one of c, d.   (one definition per combination)"""
+    ctx = Ctx(rng, sp.pref)
+    x = ctx.label(v.subj.name)
+    se = ent(v.subj, ctx.var(x), ctx=ctx)
+    def vtxt(u):
+        return str(u)
+    xs = [t[0] for t in rng.sample(v.subj.tuples, min(len(v.subj.tuples), rng.randrange(1, 3)))]
+    head = f'{v.subj.name.capitalize()} {x} is {v.words}'
+    lists = [(x, ctx.var(x), xs)]
+    oe = None
+    if v.obj:
+        y = ctx.label(v.obj.name)
+        oe = ent(v.obj, ctx.var(y), ctx=ctx)
+        ys = [t[0] for t in rng.sample(v.obj.tuples, min(len(v.obj.tuples), rng.randrange(1, 3)))]
+        head += f' {v.obj.name} {y}'
+        if rng.random() < 0.7:
+            lists.append((y, ctx.var(y), ys))
+        else:
+            # the object's own instances instead of a list
+            head += f', whenever there is {art(v.obj.name)} {v.obj.name} {y}'
+    t = head + ', where ' + ' and '.join(f'{l} is one of {", ".join(vtxt(u) for u in us)}' for l, _, us in lists) + '.'
+    asts = []
+    for combo in itertools.product(*[us for _, _, us in lists]):
+        conds = [{'k': 'cmp', 'op': 'eq', 'l': term, 'r': val(u)} for (_, term, _), u in zip(lists, combo)]
+        asts.append({'k': 'derived', 'v': verbuse(v, False, se, oe), 'conds': conds})
+    return Sentence(t, asts, 'derived-enum', defines=v.pred)
 
 
 def constraint_sentence(rng, sp):
